@@ -245,7 +245,7 @@ def check_c11(tier):
         rep.sample({"case": k, "calls": [{"op": x["op"], "err": x["err"], "out_hex": hexs(x["out"][:32])} for x in c["calls"]]})
     # negative control: corrupt one byte of one recorded output, drop the error flag of a refused call
     neg = os.path.join(wd, "neg.ndjson")
-    good = [c for c in cases.values() if c["calls"] and len(c["calls"][0]["out"]) >= 2 and not c["calls"][0]["err"]][0]
+    good = [c for c in cases.values() if c["case"] not in rep.rejected_ids and c["calls"] and len(c["calls"][0]["out"]) >= 2 and not c["calls"][0]["err"]][0]
     bad1 = json.loads(json.dumps(good)); bad1["case"] = "neg1"; bad1["calls"][0]["out"][1] ^= 1
     refused = [c for c in cases.values() if any(x["err"] for x in c["calls"])]
     lines = [good, bad1]
@@ -353,7 +353,7 @@ def check_c12(tier):
         c = cases[k]
         rep.sample({"case": k, "stream_hex": hexs(c["in"][:32]), "calls": [{"op": x["op"], "err": x["err"], "rest": x["rest"]} for x in c["calls"]]})
     # negative control
-    good = [c for c in cases.values() if c["calls"] and not c["calls"][0]["err"] and c["calls"][0]["op"] == "uint"][0]
+    good = [c for c in cases.values() if c["case"] not in rep.rejected_ids and c["calls"] and not c["calls"][0]["err"] and c["calls"][0]["op"] == "uint"][0]
     bad1 = json.loads(json.dumps(good)); bad1["case"] = "neg1"; bad1["calls"][0]["a"][7] ^= 1
     bad2 = json.loads(json.dumps(good)); bad2["case"] = "neg2"; bad2["calls"][0]["rest"] += 1; bad2["in"] = bad2["in"] + [0]
     neg = os.path.join(wd, "neg.ndjson")
